@@ -92,6 +92,9 @@ def corpus():
     c["bfs"] += [(OG, {}), (dict(OG, labels="int", actions_as="tuple"), {}), (R(**det, **PL), {})]
     for comp in ("laostar", "lrtdp", "mdp_rollout", "semimdp"):
         c[comp] += [(R(**PL), {})]
+    # options created WITHOUT name= (the library default): int / tuple keyed states so that nothing salted is involved
+    c["semimdp"] += [(R(labels="int"), {"option_names": "none"}), (R(labels="tuple"), {"option_names": "none"}),
+                     ({"kind": "rngrid"}, {"option_names": "none", "nstates": 3})]
     for comp in ("td", "rmax"):
         c[comp] += [(R(reward="goal", **PL), {})]
     return c
@@ -188,9 +191,11 @@ def keyclass(case):
     """'int' when neither states, actions nor option names of the problem contain a string, else 'str'"""
     p, par = case["problem"], case.get("params", {})
     if p["kind"] == "rand" and p.get("labels", "str") in ("int", "tuple", "falsy_tuple", "float", "negint"):
-        if case["component"] == "semimdp" and par.get("option_names", "str") == "str":
+        if case["component"] == "semimdp" and par.get("option_names", "str") in ("str", "falsy"):
             return "str"
         return "int"
+    if case["component"] == "semimdp" and p["kind"] == "rngrid" and par.get("option_names", "str") in ("str", "falsy"):
+        return "str"
     if p["kind"] in ("rngrid", "gnt") or (p["kind"] == "opengrid" and p.get("labels") == "int"):
         return "int"
     if p["kind"] == "none" and all(isinstance(e, int) for e in p.get("events", ["x"])):
@@ -218,7 +223,7 @@ def build_cases(ctx):
         for prob, par in variants()[comp]:
             for seed in (seeds[:1] if tier == "quick" else seeds[:2]):      # quick: seed 0 only (always included)
                 c = {"component": comp, "problem": prob, "params": par, "seed": seed, "origin": "variant",
-                     "x": "second_problem_n_delta" in par, "t": seed == 0, "p": seed == 0}
+                     "x": "second_problem_n_delta" in par, "t": seed == 0, "p": seed == 0, "h": seed == 0}
                 if comp == "pomdp_rollout":
                     c["scrambles"] = 2
                 cases.append(c)
@@ -239,7 +244,7 @@ def run_matrix(ctx, cases, hashseeds):
     sets = list(hashseeds) + [ORDER_SET]
     per = max(1, ctx.jobs // len(sets))
     sub = [i for i, c in enumerate(cases) if c["seed"] == 0 or len(cases) < 10]      # the order set runs the seed-0 cases only
-    rev = [dict(cases[i], x=False, t=False, p=False) for i in reversed(sub)]
+    rev = [dict(cases[i], x=False, t=False, p=False, h=False) for i in reversed(sub)]
 
     def one(label):
         if label == ORDER_SET:
@@ -299,6 +304,7 @@ def env(hs, run):
              "D": "fresh object, global generators put back in state 1",
              "R": "SECOND CALL of plan_on/train_on/run_on/query on the SAME object that produced run A",
              "T": "fresh object; the problem object had its cached views (state_list, matrices, reachable_states) touched first",
+             "H": "fresh construction after 1-3 unrelated objects of the same classes were constructed in the process",
              "P1": "fresh component on a problem object that is shared with the next run",
              "P2": "second fresh component on the SAME problem object the previous component already used",
              "XR": "the object of run A called on a SECOND problem (same labels, different numbers)",
@@ -336,7 +342,7 @@ def analyse(ctx, cases, results, hashseeds):
         for hs in hashseeds:
             r = rs[hs]
             runs = [("A", r["A"]), ("B", r["B"])] + [("C%d" % (k + 2), c) for k, c in enumerate(r["C"])] + [("D", r["D"]), ("R", r["R"])]
-            extra = [(k, r[k]) for k in ("T", "XR", "XA", "XF") if k in r]
+            extra = [(k, r[k]) for k in ("T", "XR", "XA", "XF", "H") if k in r]
             counters["runs"] += len(runs)
             counters["error_runs"] += sum(1 for _, x in runs if "error" in x)
             a = r["A"]
@@ -349,6 +355,8 @@ def analyse(ctx, cases, results, hashseeds):
                         break
             if dig(r["R"]) != dig(a):
                 add(comp, "second-call-on-same-object-differs", "", i, pair_detail(case, hs, "A", a, hs, "R", r["R"]))
+            if "H" in r and dig(r["H"]) != dig(a):
+                add(comp, "depends-on-objects-constructed-earlier-in-the-process", "", i, pair_detail(case, hs, "A", a, hs, "H", r["H"]))
             if "T" in r and dig(r["T"]) != dig(a):
                 add(comp, "differs-when-problem-object-was-used-before", "", i, pair_detail(case, hs, "A", a, hs, "T", r["T"]))
             if "XR" in r:
@@ -408,6 +416,9 @@ def report_runtime(ctx, cases, fails):
         if axis == HASH_AXIS:
             qual = "str-keys-only" if all(keyclass(c) == "str" for c in fc) else "incl-int-keys"
             exhibited.setdefault((comp, "hash"), items[0][1])
+        elif axis in ("depends-on-objects-constructed-earlier-in-the-process", "depends-on-what-ran-earlier-in-the-process"):
+            qual = "seed0-only" if all(c["seed"] == 0 for c in fc) else "any-seed"
+            exhibited.setdefault((comp, "history"), items[0][1])
         elif axis in ("mutates-the-problem-object", "differs-when-problem-object-is-shared-or-reused"):
             qual = "seed0-only" if all(c["seed"] == 0 for c in fc) else "any-seed"
             exhibited.setdefault((comp, "alias"), items[0][1])
@@ -453,14 +464,17 @@ def static_half(ctx, exhibited, only=None):
             continue
         persists = any(o["kind"] == "KPersistentAcrossCalls" for o in off)
         aliased = any(o["kind"] == "KShufflesCallerObject" for o in off)
+        counter = any(o["kind"] == "KHashOfInstanceCounter" for o in off)
         for flag, tag, axis in ((glob, "global-generator-used", "gen"), (hsh, "hash-order-dependence", "hash"),
                                 (carried and persists, "generator-persists-across-calls", "carry"),
-                                (carried and aliased, "shuffles-callers-object-in-place", "alias")):
+                                (carried and aliased, "shuffles-callers-object-in-place", "alias"),
+                                (carried and counter, "hash-reads-instance-counter-state", "history")):
             if not flag:
                 continue
             ex = exhibited.get((c, axis))
             kinds = {"gen": ("KGlobal", "KGlobalIfSeedFalsy", "KUnseeded"), "hash": ("KHashOrder", "KHash", "KHashDerivedSeed"),
-                     "carry": ("KPersistentAcrossCalls",), "alias": ("KShufflesCallerObject",)}[axis]
+                     "carry": ("KPersistentAcrossCalls",), "alias": ("KShufflesCallerObject",),
+                     "history": ("KHashOfInstanceCounter",)}[axis]
             detail = {"case": ex["case"] if ex else None,
                       "obligation": 'forallb site_private (component_sites "%s") = true  is FALSE on the regenerated table' % c,
                       "offending_sites": [o for o in off if o["kind"] in kinds],
